@@ -18,6 +18,7 @@ From IT Require Import proofs.ThresholdMaps proofs.ThresholdProofs proofs.Thresh
 Theorem C02_link_formats_ok :
   c_LinkGlobFormat = bs "%s.????????.link" /\ c_LinkNameFormat = bs "%s.%.8s.link".
 Proof. split; reflexivity. Qed.
+Print Assumptions C02_link_formats_ok.
 
 (* an entry (kid, l) is in the verified map of a step  <->  it was loaded and
    (kid is one of the step's pubkeys, the layout defines that key and it verifies l)
